@@ -13,15 +13,16 @@ cd "$W/repo"
 pkg=$(python3 -c "import json,sys;print(json.load(open('$D/meta.json')).get('package_dir_of_demo','.'))")
 prop=$(python3 -c "import json,sys;print(json.load(open('$D/meta.json'))['property'])")
 demo=$(ls "$D"/*_test.go 2>/dev/null | head -1)
+raceflag=""; if grep -q -- "-race" "$D/meta.json"; then raceflag="-race"; fi
 [ $# -gt 0 ] || set -- "$prop"
 echo "== seed $D (property $prop, demo $(basename "$demo") in $pkg)"
 if [ -n "$demo" ]; then
   cp "$demo" "$pkg/"
-  if go test -vet=off -count=1 "./$pkg/" >"$W/demo_clean.log" 2>&1; then echo "demo on clean tree: PASS"; else echo "demo on clean tree: FAIL (bad demo)"; tail -5 "$W/demo_clean.log"; fi
+  if go test -vet=off -count=1 $raceflag "./$pkg/" >"$W/demo_clean.log" 2>&1; then echo "demo on clean tree: PASS"; else echo "demo on clean tree: FAIL (bad demo)"; tail -5 "$W/demo_clean.log"; fi
 fi
 if ! git apply "$D/patch.diff"; then echo "patch does not apply"; exit 2; fi
 if [ -n "$demo" ]; then
-  if go test -vet=off -count=1 "./$pkg/" >"$W/demo_mut.log" 2>&1; then echo "demo with change: PASS (does not demonstrate)"; else echo "demo with change: FAIL (as intended)"; fi
+  if go test -vet=off -count=1 $raceflag "./$pkg/" >"$W/demo_mut.log" 2>&1; then echo "demo with change: PASS (does not demonstrate)"; else echo "demo with change: FAIL (as intended)"; fi
   rm -f "$pkg/$(basename "$demo")"
 fi
 if go build ./... >"$W/build.log" 2>&1 && go test -vet=off -count=1 ./... >"$W/suite.log" 2>&1; then echo "existing suite with change: PASS"; else
